@@ -66,6 +66,7 @@ type key struct {
 
 type summary struct {
 	mut         map[key]Witness      // (param, cell type) that may be written
+	gmut        map[int]Witness      // cell types of package-level (global) memory that may be written
 	ret         map[key]bool         // parameter objects the results may reference (directly or inside fresh memory)
 	fresh       map[int]bool         // cell types of fresh memory reachable from the results
 	stores      map[key]map[key]bool // param object <- param object stored into it
@@ -73,11 +74,11 @@ type summary struct {
 }
 
 func newSummary() *summary {
-	return &summary{mut: map[key]Witness{}, ret: map[key]bool{}, fresh: map[int]bool{}, stores: map[key]map[key]bool{}, storesFresh: map[key]map[int]bool{}}
+	return &summary{gmut: map[int]Witness{}, mut: map[key]Witness{}, ret: map[key]bool{}, fresh: map[int]bool{}, stores: map[key]map[key]bool{}, storesFresh: map[key]map[int]bool{}}
 }
 
 func (s *summary) size() int {
-	n := len(s.mut) + len(s.ret) + len(s.fresh)
+	n := len(s.mut) + len(s.gmut) + len(s.ret) + len(s.fresh)
 	for _, m := range s.stores {
 		n += len(m)
 	}
@@ -568,6 +569,13 @@ func (s *fstate) addCont(dst objset, val objset) {
 
 func (s *fstate) write(dst objset, pos token.Pos, what string, via *ssa.Function, viaK key) {
 	for o := range dst {
+		if o.root == rootGlobal {
+			if _, ok := s.sum.gmut[o.typ]; !ok {
+				s.sum.gmut[o.typ] = Witness{Pos: pos, What: what, Via: via, ViaK: viaK}
+				s.ch = true
+			}
+			continue
+		}
 		if !isArgRoot(o.root) {
 			continue
 		}
@@ -899,6 +907,12 @@ func (s *fstate) apply(ins ssa.Instruction, pos token.Pos, res ssa.Value, g *ssa
 			_ = w
 			s.write(actual(k), pos, "call of "+g.String(), g, k)
 		}
+		for t := range sum.gmut {
+			if _, ok := s.sum.gmut[t]; !ok {
+				s.sum.gmut[t] = Witness{Pos: pos, What: "call of " + g.String(), Via: g, ViaK: key{-1, t}}
+				s.ch = true
+			}
+		}
 	}
 	for dst, srcs := range sum.stores {
 		d := actual(dst)
@@ -1096,7 +1110,13 @@ func (a *Analysis) Writes(f *ssa.Function) []Write {
 			if curW.Via == nil {
 				break
 			}
-			next, ok := a.sums[curW.Via].mut[curW.ViaK]
+			var next Witness
+			var ok bool
+			if curW.ViaK.param == -1 {
+				next, ok = a.sums[curW.Via].gmut[curW.ViaK.typ]
+			} else {
+				next, ok = a.sums[curW.Via].mut[curW.ViaK]
+			}
 			if !ok {
 				break
 			}
@@ -1111,6 +1131,40 @@ func (a *Analysis) Writes(f *ssa.Function) []Write {
 		}
 		return out[i].CellType < out[j].CellType
 	})
+	return out
+}
+
+// GlobalWrites lists the package-level memory f (or anything it calls) may write.
+func (a *Analysis) GlobalWrites(f *ssa.Function) []Write {
+	sum := a.sums[f]
+	if sum == nil {
+		return nil
+	}
+	var out []Write
+	for t, w := range sum.gmut {
+		wr := Write{Param: -1, CellType: types.TypeString(a.tlist[t], func(p *types.Package) string { return p.Name() })}
+		curW, curF := w, f
+		for depth := 0; depth < 12; depth++ {
+			wr.Chain = append(wr.Chain, fmt.Sprintf("%s: %s (%s)", curF.String(), curW.What, a.prog.Pos(curW.Pos)))
+			wr.Root, wr.RootPos = curF, curW.Pos
+			if curW.Via == nil {
+				break
+			}
+			var next Witness
+			var ok bool
+			if curW.ViaK.param == -1 {
+				next, ok = a.sums[curW.Via].gmut[curW.ViaK.typ]
+			} else {
+				next, ok = a.sums[curW.Via].mut[curW.ViaK]
+			}
+			if !ok {
+				break
+			}
+			curF, curW = curW.Via, next
+		}
+		out = append(out, wr)
+	}
+	sort.Slice(out, func(i, j int) bool { return out[i].CellType < out[j].CellType })
 	return out
 }
 
